@@ -68,10 +68,13 @@ def e2e_case(case_seed):
     dep = sp.ContinuousFactor("u", distribution=sp.CustomDistribution(rec, [d, base, win]))
     reject = rng.random() < 0.5
     cons = [ContinuousConstraint([base], lambda v: int(v) % 7 != 0)] if reject else []
+    # a cumulative factor: the running total of t within ONE sequence (resampling after a rejected draw must start from zero again)
+    cumul = rng.random() < 0.6
+    acc = sp.ContinuousFactor("acc", distribution=sp.CustomDistribution(lambda v: v, [base], cumulative=True))
     minT = rng.choice([2, 4, 5])
-    params = dict(width=width, stride=stride, start=start, constraint=reject, minimum_trials=minT)
-    key = f"e2e:w{width}:s{stride}:start{start}:{'constraint' if reject else 'free'}"
-    blk = sp.CrossBlock([cf, d, base, dep], [cf], cons + [sp.MinimumTrials(minT)])
+    params = dict(width=width, stride=stride, start=start, constraint=reject, minimum_trials=minT, cumulative=cumul)
+    key = f"e2e:w{width}:s{stride}:start{start}:{'constraint' if reject else 'free'}{':cumulative' if cumul else ''}"
+    blk = sp.CrossBlock([cf, d, base, dep] + ([acc] if cumul else []), [cf], cons + [sp.MinimumTrials(minT)])
     try:
         res = runner.synth(blk, 2, rng.choice(["IterateSATGen", "RandomGen"]))
     except Exception as e:
@@ -79,12 +82,20 @@ def e2e_case(case_seed):
     T = blk.trials_per_sample()
     bad = None
     for e in res:
-        if sorted(e) != ["c", "d", "t", "u"] or any(len(v) != T for v in e.values()):
+        if sorted(e) != sorted(["c", "d", "t", "u"] + (["acc"] if cumul else [])) or any(len(v) != T for v in e.values()):
             bad = f"columns/lengths {[(k, len(v)) for k, v in e.items()]} for T={T}"
             break
         if reject and any(int(v) % 7 == 0 for v in e["t"]):
             bad = f"ContinuousConstraint violated by returned values {e['t']}"
             break
+        if cumul:
+            run, tot = [], 0.0
+            for v in e["t"]:
+                tot += v
+                run.append(tot)
+            if any(abs(a - b) > 1e-9 for a, b in zip(e["acc"], run)):
+                bad = f"cumulative factor acc = {e['acc']} is not the running total {run} of this sequence's t = {e['t']}"
+                break
     if not bad and res:
         e = res[-1]
         tail = log[-T:]          # inputs recorded during the accepted attempt of the last experiment
